@@ -394,6 +394,12 @@ def check_property(pid, tier, seed):
         "confirmed_by_two_configs": sum(1 for _k, r in real if r.ok and len(getattr(r, "confirmed_by", None) or []) >= 2),
         "discharged_on_risky_pattern_files": sum(1 for _k, r in real if r.ok and getattr(r, "risky_pattern", False)),
         "solver_disagreements": [r.name for _k, r in real if getattr(r, "disagree", None)],
+        # proofs on files with (Seq String) + quantifiers that only z3 configurations found (z3's sequence solver has
+        # answered `unsat` wrongly on such files; see docs/PYVC.md "Known solver unsoundness")
+        "z3_only_on_seq_string_files": sum(1 for _k, r in real if r.ok and getattr(r, "seq_string", False)
+                                           and not any(str(c).startswith("cvc5") for c in (getattr(r, "confirmed_by", None) or [r.solver]))),
+        "discharged_on_seq_string_files": sum(1 for _k, r in real if r.ok and getattr(r, "seq_string", False)),
+        "vacuity_probe": {"vacuous_unconfirmed": [r.name for _k, r in real if (getattr(r, "info", None) or {}).get("vacuous")][:20]},
         "solver_time_s": round(solver_time, 2),
         "guards": {"canaries_and_covers": len(guards), "groups": len(groups), "failed_to_prove_as_required": sum(1 for rs in groups.values() if any(r.ok for r in rs)), "canary_sat": sum(1 for _, r in guards if r.status == "refuted")},
         "runtime_crosscheck": {"label": "bounded", **rt_total},
@@ -408,6 +414,8 @@ def check_property(pid, tier, seed):
     }
     cov_confirmed = sum(1 for _k, r in real if r.ok and len(getattr(r, "confirmed_by", None) or []) >= 2)
     cov_discharged = sum(1 for _k, r in real if r.ok)
+    cov_z3only = sum(1 for _k, r in real if r.ok and getattr(r, "seq_string", False)
+                     and not any(str(c).startswith("cvc5") for c in (getattr(r, "confirmed_by", None) or [r.solver])))
     ev = {
         "property_id": pid,
         "tier": tier,
@@ -422,7 +430,8 @@ def check_property(pid, tier, seed):
             "seq.extract under quantifiers; regression files in selftest/solver_regress). Mitigations in force: after an `unsat` the other solver "
             "configurations are asked and a `sat` from any of them blocks the discharge (verdict disagree = undecided); on files with seq.extract "
             "under a quantifier a z3 `unsat` needs a second opinion; every contract carries canaries that must fail to prove. "
-            f"{cov_confirmed} of {cov_discharged} deductive obligations of this run have two or more independent `unsat` answers; the others rest on one solver configuration",
+            f"{cov_confirmed} of {cov_discharged} deductive obligations of this run have two or more independent `unsat` answers; the others rest on one solver configuration; "
+            f"{cov_z3only} obligations on files with (Seq String) + quantifiers were closed by z3 configurations only (no cvc5 agreement): they assume z3's sequence solver",
         ],
         "wall_s": round(time.time() - t0, 2),
         "violations": len(violations),
